@@ -6,7 +6,7 @@
    (C16_shortest_full_statement below) — this is tied by certified sampling + comparison with strconv. *)
 From QF Require Import Base.Prelude Gen.GenConsts Gen.GenRyu Model.Ryu.
 From QF Require Import Proofs.RyuTables Proofs.RyuArith Proofs.RyuAppendF Proofs.RyuExactInt Proofs.RyuNoPanic
-                       Proofs.RyuShortest.
+                       Proofs.RyuShortest Proofs.RyuIntervalFrac Proofs.RyuIntervalMul.
 Local Open Scope N_scope.
 
 (* 1. every entry of the two 128-bit tables and of powersOf10 is the number the algorithm needs *)
@@ -136,6 +136,36 @@ Example C16_shortest_b_example :     (* 0.1 = 0x3FB999999999999A *)
   shortest_b 0x3FB999999999999A 2 (-1) = false /\
   shortest_b 0x3FB999999999999A 1000000000000000055511151231257827 (-34) = false.
 Proof. vm_compute. repeat split. Qed.
+
+(* 7. Stage 1 of the interval search: the 128-bit fixed-point multiplications.  For every biased exponent
+   of a finite float (plan_of exp = the exponent-only part of step 3: table entry p_mul, shift p_sh, digit
+   count p_q) and every 1 <= x <= 4 (2^53 - 1) + 2, mulShift64 returns floor (x * A / B) for the exact scale
+   A / B = 2^(e2-q) / 5^q (e2 >= 0) resp. 5^(-e2-q) / 2^q (e2 < 0) — with exactly two exceptions, where the
+   result is off by one (the table entries are a bit short; both x are values of mv only). *)
+Theorem C16_mulShift64_exact (exp : N) (pl : plan) (x : N) :
+  exp <= 2046 -> plan_of exp = Ok pl -> 1 <= x <= mp_max -> mul_exception exp x = false ->
+  mulShift64 x (p_mul pl) (p_sh pl)
+  = Ok (x * fst (ratio pl (e2_of exp)) / snd (ratio pl (e2_of exp))).
+Proof. exact (mulShift64_exact exp pl x). Qed.
+Print Assumptions C16_mulShift64_exact.
+Example C16_mulShift64_exact_example :      (* exp = 1019 (0.1 lives there): e2 = -58, q = 39, A/B = 5^19 / 2^39 *)
+  match plan_of 1019 with
+  | Ok pl => ratio pl (e2_of 1019) = (5 ^ 19, 2 ^ 39) /\ mul_exception 1019 28823037615171176 = false /\
+             mulShift64 28823037615171176 (p_mul pl) (p_sh pl) = Ok (28823037615171176 * 5 ^ 19 / 2 ^ 39)
+  | _ => False
+  end.
+Proof. vm_compute. repeat split. Qed.
+
+(* the two exceptions are real *)
+Theorem C16_mulShift64_off_by_one :
+  (exists pl, plan_of 472 = Ok pl /\
+     mulShift64 28933731341339864 (p_mul pl) (p_sh pl) = Ok 2178999185345151730 /\
+     28933731341339864 * fst (ratio pl (e2_of 472)) / snd (ratio pl (e2_of 472)) = 2178999185345151731) /\
+  (exists pl, plan_of 1797 = Ok pl /\
+     mulShift64 33542060588139028 (p_mul pl) (p_sh pl) = Ok 1850063423920730049 /\
+     33542060588139028 * fst (ratio pl (e2_of 1797)) / snd (ratio pl (e2_of 1797)) = 1850063423920730048).
+Proof. exact mulShift64_off_by_one. Qed.
+Print Assumptions C16_mulShift64_off_by_one.
 
 (* The full statement (NOT proved): for every finite non-zero float the pair found by the interval search
    is accepted by the checker, i.e. the text is the shortest closest decimal.  The engine checks this on
